@@ -42,6 +42,7 @@ struct thr {
 	int prio;
 	long nsteps;
 	long nsleeps;
+	int aim;             /* the thread has just cleared a flag (1 -> 0) with an atomic store: its next shared plain access is an aimed preemption point */
 	long pending_snap;   /* trace index whose post-state snapshot is taken when this thread next parks */
 };
 static struct thr T[MAXT];
@@ -300,11 +301,30 @@ static void dead_stack_check (int t, const volatile void *addr, const char *what
 		}
 	}
 }
+static int aim_pct = 0;
+static int plain_pct = 0;     /* percentage of shared plain accesses that are scheduling points (finer than one step per atomic site) */
+static struct thr *sched_point (int kind);
+static int wake_timeouts (void);
 void vrt_plain (const void *addr, int size, int is_write, const void *pc) {
 	int t = self_id, g;
-	if (!started || in_snapshot) return;
+	if (!started || in_snapshot || t == 0) return;
 	nplain++;
 	if ((char *) addr >= T[t].stack_lo && (char *) addr < T[t].stack_hi) return; /* own stack */
+	if (T[t].aim && aim_pct > 0) {
+		T[t].aim = 0;
+		if ((int) vrt_rand (100) < aim_pct) {
+			/* aimed: between a waker's `waiting := 0` and what it does next with the record; also let pending deadlines fire */
+			int i;
+			vrt_count ("aimed_preempt");
+			for (i = 1; i < nthr; i++) if (T[i].state == ST_BLOCKED && T[i].has_deadline && vrt_rand (2)) { if (T[i].deadline > now_ns) now_ns = T[i].deadline; }
+			wake_timeouts ();
+			sched_point (K_POINT);
+		}
+	} else if (plain_pct > 0 && (int) vrt_rand (1000) < plain_pct) {
+		/* preempt BEFORE the access: other threads may run between the preceding atomic operation and this plain access */
+		vrt_count ("plain_preempt");
+		sched_point (K_POINT);
+	}
 	if (vrt_is_freed (addr)) {
 		vrt_fail ("UAF", "plain %s of %d bytes at %p inside a block already released by free()",
 			  is_write ? "write" : "read", size, addr);
@@ -551,6 +571,8 @@ static void setup (void) {
 	inject_left = vrt_opt ("INJECTK", 3);
 	strategy = vrt_opt ("STRATEGY", (int) vrt_rand (4) == 0 ? 1 : 0);
 	race_check = vrt_opt ("RACE", 1);
+	plain_pct = vrt_opt ("PLAINPM", 0);
+	aim_pct = vrt_opt ("AIM", 0);     /* per mille */
 	quiet = vrt_opt ("QUIET", 0);
 	fail_alloc_at = vrt_opt ("FAILALLOC", 0);
 	npct = 3;
@@ -641,6 +663,7 @@ void vrt_store (volatile void *p, uint32_t v, int order, const char *file, int l
 	atomic_addr_check (me->id, p, "atomic store");
 	log_ev (me->id, K_STORE, order, p, *(volatile uint32_t *) p, v, 1, file, line);
 	if (write_monitor != NULL) write_monitor (p, *(volatile uint32_t *) p, v, file, line);
+	if (v == 0 && *(volatile uint32_t *) p == 1) me->aim = 1;
 	*(volatile uint32_t *) p = v;
 	hb_store (me->id, p, order);
 	last_progress_step = steps;
